@@ -2,20 +2,32 @@
 # Runs every seeded change in /verif/seeded against the quick check of the property it breaks (on a scratch copy of
 # /repo, never on /repo itself) and writes /verif/seeded/RESULTS.md.  Patches that no longer apply because a later
 # fix: commit changed the same lines use patch_ported_to_current_tree.diff when present.
+# usage: vc/seeded_matrix.sh [parallel workers, default 3] [only these ids...]
 cd "$(dirname "$0")/.."
-out=seeded/RESULTS.md
-echo "| seeded change | property | verdict of ./check <property> on the changed tree | first failing obligations |" > $out
-echo "|---|---|---|---|" >> $out
-for d in $(ls -d seeded/C*-* | sort); do
-  id=$(basename $d); prop=${id%-*}
+workers=${1:-3}; shift
+ids="$*"; [ -z "$ids" ] && ids=$(ls -d seeded/C*-* | xargs -n1 basename | sort)
+rows=$(mktemp -d /tmp/cjet-seedrows-XXXXXX)
+one() {
+  id=$1; rows=$2; prop=${id%-*}; d=seeded/$id
   patch=$d/patch.diff; [ -f $d/patch_ported_to_current_tree.diff ] && patch=$d/patch_ported_to_current_tree.diff
   tmp=$(mktemp -d /tmp/cjet-seed-XXXXXX); mkdir -p $tmp/repo $tmp/out; cp -r /repo/src /repo/cmake $tmp/repo/
   if ! (cd $tmp/repo && patch -p1 -s < /verif/$patch) >/dev/null 2>&1; then
-     if true; then echo "| $id | $prop | patch does not apply to the current tree (superseded by a fix: commit) | |" >> $out; rm -rf $tmp; continue; fi
+    echo "| $id | $prop | patch does not apply to the current tree (superseded by a fix: commit) | |" > $rows/$id; rm -rf $tmp; return
   fi
-  VERIF_REPO=$tmp/repo VERIF_OUT=$tmp/out python3 vc/driver.py $prop > $tmp/log 2>/dev/null; rc=$?
+  VERIF_REPO=$tmp/repo VERIF_OUT=$tmp/out VERIF_JOBS=5 python3 vc/driver.py $prop > $tmp/log 2>/dev/null; rc=$?
   obs=$(grep -a '^VIOLATION' $tmp/log | sed 's/.*obligation=//; s/ no-failing-input-found//' | head -3 | tr '\n' ' ')
   case $rc in 0) v="MISSED (exit 0)";; 1) v="CAUGHT (exit 1)";; *) v="UNDECIDED (exit $rc)";; esac
-  echo "| $id | $prop | $v | $obs |" >> $out
+  echo "| $id | $prop | $v | $obs |" > $rows/$id
   rm -rf $tmp
-done
+}
+export -f one
+echo $ids | tr ' ' '\n' | xargs -P $workers -I{} bash -c 'one {} '"$rows"
+out=seeded/RESULTS.md
+if [ $# -eq 0 ]; then
+  echo "| seeded change | property | verdict of ./check <property> (quick tier) on the changed tree | first failing obligations |" > $out
+  echo "|---|---|---|---|" >> $out
+  cat $(ls $rows/* | sort) >> $out
+else
+  cat $(ls $rows/* | sort)
+fi
+rm -rf $rows
